@@ -13,7 +13,7 @@ import (
 )
 
 func init() {
-	register(&Rule{ID: "VAL-1", Props: []string{"C13", "C02", "C06"}, Floor: 7,
+	register(&Rule{ID: "VAL-1", Props: []string{"C13", "C02", "C06", "C07"}, Floor: 7,
 		Doc: "each built-in Set parses its parameter itself with the right strconv call (ParseBool / ParseInt(s,10,64) / ParseFloat(s,64)), stores a conversion of result 0, returns the error as is; string types store the parameter unchanged", Run: val1})
 	register(&Rule{ID: "VAL-2", Props: []string{"C13", "C06"}, Floor: 5,
 		Doc: "a failed Set is a no-op: the store to the receiver is dominated by the err==nil edge", Run: val2})
@@ -23,7 +23,7 @@ func init() {
 		Doc: "environment application is atomic: no Clear of the target may be followed by a failing exit", Run: val4})
 	register(&Rule{ID: "VAL-5", Props: []string{"C19", "C10", "C17", "C02"}, Floor: 2,
 		Doc: "capability detection uses the methods' results: IsBool = BoolValued && IsBoolFlag(); DefaultValue = \"\" iff DefaultValued && IsDefault(), else String()", Run: val5})
-	register(&Rule{ID: "VAL-6", Props: []string{"C06"}, Floor: 7,
+	register(&Rule{ID: "VAL-6", Props: []string{"C06", "C02"}, Floor: 7,
 		Doc: "each constructor NewX(into, v) stores v to *into and returns into converted", Run: val6})
 	register(&Rule{ID: "VAL-7", Props: []string{"C06", "C02", "C20", "C13"}, Floor: 6,
 		Doc: "multi-valued built-ins: Clear stores nil, Set appends at the end", Run: val7})
